@@ -310,9 +310,11 @@ def evaluate(lines, compare=None):
 # ------------------------------------------------------------------ known findings
 
 def load_known(pid):
-    p = os.path.join(VERIF, "known_findings.jsonl")
+    # known_findings.jsonl plus the per-property proposals findings/known_findings_<pid>.jsonl (same format)
+    paths = [os.path.join(VERIF, "known_findings.jsonl")] + \
+        sorted(glob.glob(os.path.join(VERIF, "findings", "known_findings_*.jsonl")))
     out = []
-    if os.path.exists(p):
+    for p in [q for q in paths if os.path.exists(q)]:
         for l in open(p):
             l = l.strip()
             if not l or l.startswith("#") or l.startswith("fixed:"):
